@@ -91,6 +91,18 @@ fn check6(input: &[u8], hint: Option<bool>, bs: usize) -> Result<String, String>
                                 }
                             }
                             v.push(ch.data);
+                            // an accepted chunk can be written again and is read back equal
+                            let mut cbuf: Vec<u8> = Vec::with_capacity(ch.data.len() + 8);
+                            let cw_bytes = match p6::write_chunk(ch.data, ch.vital, &mut cbuf) {
+                                Ok(b) => b.to_vec(),
+                                Err(e) => return Err(format!("accepted chunk cannot be written: {:?} ({:?})", e, ch)),
+                            };
+                            let mut it2 = p6::ChunksIter::new(&cw_bytes, 1);
+                            let mut cw2: Vec<p6::Warning> = Vec::new();
+                            match it2.next_warn(&mut cw2) {
+                                Some(b2) if b2.data == ch.data && b2.vital == ch.vital && cw2.is_empty() => {}
+                                other => return Err(format!("written and re-read chunk differs: {:?} vs {:?} (warnings {:?})", ch, other, cw2)),
+                            }
                             cnt += 1;
                             if cnt > 2000 {
                                 return Err("chunk iterator does not terminate".into());
@@ -178,6 +190,18 @@ fn check7(input: &[u8], bs: usize) -> Result<String, String> {
                                 }
                             }
                             v.push(ch.data);
+                            // an accepted chunk can be written again and is read back equal
+                            let mut cbuf: Vec<u8> = Vec::with_capacity(ch.data.len() + 8);
+                            let cw_bytes = match p7::write_chunk(ch.data, ch.vital, &mut cbuf) {
+                                Ok(b) => b.to_vec(),
+                                Err(e) => return Err(format!("accepted chunk cannot be written: {:?} ({:?})", e, ch)),
+                            };
+                            let mut it2 = p7::ChunksIter::new(&cw_bytes, 1);
+                            let mut cw2: Vec<p7::Warning> = Vec::new();
+                            match it2.next_warn(&mut cw2) {
+                                Some(b2) if b2.data == ch.data && b2.vital == ch.vital && cw2.is_empty() => {}
+                                other => return Err(format!("written and re-read chunk differs: {:?} vs {:?} (warnings {:?})", ch, other, cw2)),
+                            }
                             cnt += 1;
                             if cnt > 2000 {
                                 return Err("chunk iterator does not terminate".into());
@@ -320,6 +344,14 @@ fn valid_packets() -> Vec<(String, Vec<u8>)> {
             v.push((format!("v6:chunks:{}:c{}", tn, compress as u8), wire::build6(0, 1000, 3, &chunks6, tok, compress).unwrap()));
             v.push((format!("v6:chunks-rr:{}:c{}", tn, compress as u8), wire::build6(wire::F6_RESEND, 3, 3, &chunks6, tok, compress).unwrap()));
         }
+    }
+    // vital chunks with sequence numbers on both sides of every bit of the 10-bit field
+    for seq in [0u16, 1, 3, 4, 63, 64, 255, 256, 511, 512, 513, 767, 768, 1022, 1023] {
+        let c6 = wire::chunk(false, b"sequence", Some((seq, seq % 2 == 1)));
+        let c7 = wire::chunk(true, b"sequence", Some((seq, seq % 2 == 1)));
+        v.push((format!("v6:chunk-seq{}", seq), wire::build6(0, seq, 1, &c6, Some(t), false).unwrap()));
+        v.push((format!("v6:chunk-seq{}:notok", seq), wire::build6(0, 1023 - seq, 1, &c6, None, false).unwrap()));
+        v.push((format!("v7:chunk-seq{}", seq), wire::build7(0, seq, 1, &c7, t, false).unwrap()));
     }
     // close reasons around the 127-byte limit, with and without terminator, with inner NULs
     for n in [126usize, 127, 128, 129, 200] {
@@ -495,7 +527,7 @@ fn main() {
     par(&run, "constant-byte strings of length 0..3000", consts.into_par_iter());
     run.assume("a response token of ffffffff in a 0.7 Connect/Token control message is accepted by the reader but is not expressible through the writer API (the writer asserts on it); such values are exempt from the write-back clause");
     run.finish(
-        "byte strings fed to Packet::read (0.6 with token hint None/true/false, 0.7), read_panic_on_decompression (uncompressed only), decompress_if_needed, is_initial and ChunksIter: all strings of length <=2 (<=3 thorough), boundary-structured strings up to 9 bytes, every truncation / extension / single-field and field-pair corruption of valid packets of every kind, compressed payloads expanding to 1380..3000 bytes, prefixes of compressed packets, constant strings of length 0..3000; scratch buffers of 1400 (the size the callers use, the minimum legal one), 1401 and 2048 bytes for compressed inputs, re-reads always with 1400; oracle: returns, no panic, returned slices inside input or scratch buffer (pointer ranges), fields in range, accepted value writes and re-reads equal; outcome class = (version, error variant or accepted kind, warnings, hint)",
+        "byte strings fed to Packet::read (0.6 with token hint None/true/false, 0.7), read_panic_on_decompression (uncompressed only), decompress_if_needed, is_initial and ChunksIter: all strings of length <=2 (<=3 thorough), boundary-structured strings up to 9 bytes, every truncation / extension / single-field and field-pair corruption of valid packets of every kind, compressed payloads expanding to 1380..3000 bytes, prefixes of compressed packets, constant strings of length 0..3000; scratch buffers of 1400 (the size the callers use, the minimum legal one), 1401 and 2048 bytes for compressed inputs, re-reads always with 1400; oracle: returns, no panic, returned slices inside input or scratch buffer (pointer ranges), fields in range, accepted value writes and re-reads equal (packets, and every chunk the iterator hands out); outcome class = (version, error variant or accepted kind, warnings, hint)",
         true,
     );
 }
